@@ -23,7 +23,8 @@ CLAIMS = {
         design_ref="5 (C07)"),
     "C09": dict(
         technique="Coq proof (fold invariant over the victim loop: selected = named members the actor's rank may remove, duplicate-free; case analysis of TOPIC and INVITE) + 32x32 rank sweep against the real server with a rank-rule oracle",
-        text="OBEY RANK, for every history: a user who stays connected leaves a channel only by its own PART line or by a KICK line naming it whose sender was, before the line, a member holding "
+        text="A KICK that selects nobody is, as a whole step, inert: state and connection records unchanged, nobody closed, only the sender hears (C09_kick_refused_step). "
+             "OBEY RANK, for every history: a user who stays connected leaves a channel only by its own PART line or by a KICK line naming it whose sender was, before the line, a member holding "
              "half-operator rank or above whose rank may remove the victim's (C09_removed_only_by_part_or_ranked_kick); a topic that differs after a step was set by a TOPIC line of a member who on +t "
              "held half-operator rank or above (C09_topic_changed_only_by_rank); a new pending invitation was written by an INVITE line of a member who on an invite-only channel held the operator flag, "
              "for a user not on the channel (C09_invited_only_by_rank). "
